@@ -68,7 +68,9 @@ func c11Check(c c11Case) fw.Outcome {
 	obj := c.Spec.build()
 	label := c.Spec.Kind
 	if c.Parsed {
-		o2, err := geojson.Parse(obj.JSON(), nil)
+		// the representation options may change the concrete type, never the box, centre, validity or emptiness
+		o2, err := geojson.Parse(obj.JSON(), &geojson.ParseOptions{IndexChildren: 2, IndexGeometry: 4, IndexGeometryKind: geometry.RTree,
+			AllowSimplePoints: c.Spec.Kind != "Feature", AllowRects: true})
 		if err != nil {
 			return fw.Outcome{Label: label + "/not-parseable", Skip: true} // e.g. rings shorter than 4 positions
 		}
@@ -195,6 +197,22 @@ func genFiniteSpec(t *rapid.T, depth int) objSpec {
 		s.Pts = genFinitePts(t, 0, 6, "l")
 	case "Polygon":
 		s.Rings = genRingsFinite(t)
+		if rapid.IntRange(0, 3).Draw(t, "rectlike") == 0 {
+			// five positions, axis-aligned from the min corner counter-clockwise, sometimes with one vertex moved
+			x0, y0 := float64(rapid.IntRange(-50, 50).Draw(t, "rx")), float64(rapid.IntRange(-50, 50).Draw(t, "ry"))
+			x1, y1 := x0+float64(rapid.IntRange(1, 40).Draw(t, "rw")), y0+float64(rapid.IntRange(1, 40).Draw(t, "rh"))
+			ring := []fpt{{F(x0), F(y0)}, {F(x1), F(y0)}, {F(x1), F(y1)}, {F(x0), F(y1)}, {F(x0), F(y0)}}
+			if rapid.Bool().Draw(t, "moved") {
+				i := rapid.IntRange(1, 3).Draw(t, "mv")
+				d := F(rapid.SampledFrom([]float64{-7, -1, 1, 5, 60}).Draw(t, "md"))
+				if rapid.Bool().Draw(t, "mx") {
+					ring[i].X += d
+				} else {
+					ring[i].Y += d
+				}
+			}
+			s.Rings = [][]fpt{ring}
+		}
 	case "Rect":
 		a := genFinitePts(t, 2, 2, "r")
 		lo := fpt{F(math.Min(float64(a[0].X), float64(a[1].X))), F(math.Min(float64(a[0].Y), float64(a[1].Y)))}
